@@ -57,6 +57,7 @@ fn main() {
             args.get(2).and_then(|s| s.parse().ok()).unwrap_or(1),
             args.get(3).map(|s| s == "rev").unwrap_or(false),
         ),
+        "C11-cross" => props::c11::run_cross(&args[2..]),
         "C20" => props::c20::run(tier, seed),
         "replay" => {
             let path = args.get(2).unwrap_or_else(|| usage());
